@@ -75,13 +75,13 @@ def one_case(rep, drv, stream, spec, fields, oracle_fn, theorem, classify=None, 
 	if not mo['orderOK']:
 		rep.count('orderOK-false')
 	# hypotheses of the network-level theorems (Props/Net.lean), evaluated by the driver on this very network and history
-	for hyp in ('netWF', 'initOK', 'visitOK', 'exoOK'):
+	for hyp in ('netWF', 'initOK', 'visitOK', 'allVisited', 'exoOK'):
 		if mo.get(hyp, True):
 			rep.count('net-theorem-hypothesis-%s-true' % hyp)
 		else:
 			rep.count('net-theorem-hypothesis-%s-FALSE' % hyp)
 			rep.diff(stream, 'hypothesis %s of the network-level theorems (Props/Net.lean) is false on this generated network: the theorem does not cover it' % hyp,
-					 spec, oracle=False, theorem='Props/Net.lean on_order_exact_checked, Props/NetBO.lean bo_matches_il_network')
+					 spec, oracle=False, theorem='Props/Net.lean on_order_exact_checked, Props/NetBO.lean bo_matches_il_network, Props/NetFlow.lean conservation_network')
 	diffs = simlib.compare_traces(spec, py, mo, fields)
 	if fields is None or 'total' in (fields or []):
 		if py['total'] != mo['total']:
